@@ -101,4 +101,7 @@ def check(ctx):
             else:
                 rep.unknown("R-C23-fresh", where, "stored value form not modelled")
     rep.floor("stores to _compile_pipeline in the constructor", n_store, 2)
+    from .c23_extra import extra
+
+    extra(ctx, rep)
     return rep
